@@ -256,7 +256,7 @@ def symlinked_places(sb, R, rng, tier):
     existing directory OUTSIDE the project: checkout must not write through it"""
     viol = []
     for where in ("artifact", "subdir", "deep"):
-        for strat in ([], ["--copy"]):
+        for cmd in (["checkout"], ["checkout", "--copy"], ["commit"], ["commit", "--copy"], ["status"], ["push"]):
             proj = sb.project()
             root = proj.root
             os.makedirs(os.path.join(root, "data", "sub", "deeper"))
@@ -270,17 +270,28 @@ def symlinked_places(sb, R, rng, tier):
             big = os.path.join(outer, "bigdisk")
             os.makedirs(os.path.join(big, "sub", "deeper"))
             open(os.path.join(big, "keep.txt"), "w").write("keep")
+            # the outside directory holds data of its own, partly under the names the committed directory used
+            for relp, txt in (("a.txt", "outside a"), ("b.txt", "outside b"), ("c.txt", "ccc"), ("sub/b.txt", "bbb"), ("sub/deeper/c.txt", "outside c"),
+                              ("deeper/c.txt", "ccc")):
+                os.makedirs(os.path.dirname(os.path.join(big, relp)), exist_ok=True)
+                open(os.path.join(big, relp), "w").write(txt)
             rel = {"artifact": "data", "subdir": "data/sub", "deep": "data/sub/deeper"}[where]
             shutil.rmtree(os.path.join(root, rel))
             os.symlink(big, os.path.join(root, rel))
             before = sb.outside(proj)
-            rc, so, se = proj.dud(["checkout"] + strat, cwd=root)
+            if where == "artifact" and cmd[0] == "commit":
+                # an artifact whose OWN path is a link to a directory elsewhere (`data -> /bigdisk/data`) is a layout the user chose:
+                # commit follows it (os.Stat / ReadDir) and manages the files there. C18 quantifies over what stage files, the index and
+                # manifests contain, not over links the user puts at an artifact's path: no verdict (DESIGN §8, "also noticed")
+                proj.cleanup()
+                continue
+            rc, so, se = proj.dud(cmd, cwd=root)
             after = sb.outside(proj)
-            R.count("symlinked-%s-%s" % (where, "copy" if strat else "link"), True)
+            R.count("symlinked-%s-%s" % (where, "-".join(cmd)), True)
             if after != before:
                 ch = sorted(p for p in set(after) | set(before) if after.get(p) != before.get(p))
-                viol.append(("symlink-escape", "`dud checkout%s` (exit %d) with a symbolic link to an outside directory where the committed "
-                             "directory %s belongs: entries outside the project changed: %s" % (" --copy" if strat else "", rc, rel, ch[:3])))
+                viol.append(("symlink-escape", "`dud %s` (exit %d) with a symbolic link to an outside directory where the committed "
+                             "directory %s belongs: entries outside the project changed: %s" % (" ".join(cmd), rc, rel, ch[:3])))
             proj.cleanup()
     return viol
 
